@@ -169,7 +169,7 @@ func retype(v Val, t types.Type) Val {
 
 func (c *FnCtx) doAlloc(st *State, x *ssa.Alloc) {
 	t := x.Type().(*types.Pointer).Elem()
-	r := c.allocRef(st, "new."+x.Comment)
+	r := c.allocRefT(st, "new."+x.Comment, t)
 	pv := scalar(x.Type(), r)
 	a := c.addrOfPointer(pv)
 	if kindOf(t) == KArray {
@@ -570,6 +570,7 @@ func (c *FnCtx) typeID(t types.Type) string {
 	n := sym("type:" + typeName(t))
 	if !c.declared[n] {
 		c.declare(n, "Int")
+		c.addGlobalFact("(> " + n + " 0)")
 		for o := range c.typeIDs {
 			c.addGlobalFact(fmt.Sprintf("(not (= %s %s))", n, o))
 		}
@@ -578,15 +579,29 @@ func (c *FnCtx) typeID(t types.Type) string {
 	return n
 }
 
+// declareBox declares the boxing functions of a scalar concrete type with their axioms:
+// unbox(box(x)) = x, dyntype(box(x)) = T, box(x) != nil, and box(unbox(v)) = v for values of that type.
+func (c *FnCtx) declareBox(t types.Type) (bx, ub string) {
+	bx = sym("box|" + typeName(t))
+	ub = sym("unbox|" + typeName(t))
+	if c.declared[bx] {
+		return
+	}
+	c.declareFun("dyntype", []string{"Int"}, "Int")
+	srt := leafSort(kindOf(t))
+	c.declareFun(bx, []string{srt}, "Int")
+	c.declareFun(ub, []string{"Int"}, srt)
+	tid := c.typeID(t)
+	c.addGlobalFact(fmt.Sprintf("(forall ((x %s)) (! (and (= (%s (%s x)) x) (= (dyntype (%s x)) %s) (> (%s x) 0)) :pattern ((%s x))))", srt, ub, bx, bx, tid, bx, bx))
+	c.addGlobalFact(fmt.Sprintf("(forall ((v Int)) (! (=> (and (not (= v 0)) (= (dyntype v) %s)) (= (%s (%s v)) v)) :pattern ((%s v))))", tid, bx, ub, ub))
+	return
+}
+
 func (c *FnCtx) makeInterface(st *State, v Val, it types.Type) Val {
 	c.declareFun("dyntype", []string{"Int"}, "Int")
 	tid := c.typeID(v.T)
 	if v.IsScalar() {
-		bx := sym("box|" + typeName(v.T))
-		ub := sym("unbox|" + typeName(v.T))
-		srt := leafSort(v.K)
-		c.declareFun(bx, []string{srt}, "Int")
-		c.declareFun(ub, []string{"Int"}, srt)
+		bx, ub := c.declareBox(v.T)
 		t := "(" + bx + " " + v.S + ")"
 		st.assume(eq("("+ub+" "+t+")", v.S))
 		st.assume(eq("(dyntype "+t+")", tid))
@@ -620,11 +635,7 @@ func (c *FnCtx) typeAssert(st *State, x *ssa.TypeAssert) (forkFn, bool) {
 			a := &Addr{Space: "C", Key: "box:" + typeName(at), Idx: []string{v.S}, T: at}
 			res = c.load(st, a)
 		} else {
-			ub := sym("unbox|" + typeName(at))
-			bx := sym("box|" + typeName(at))
-			srt := leafSort(kindOf(at))
-			c.declareFun(ub, []string{"Int"}, srt)
-			c.declareFun(bx, []string{srt}, "Int")
+			bx, ub := c.declareBox(at)
 			res = scalar(at, "("+ub+" "+v.S+")")
 			st.assume(implies(okT, eq("("+bx+" "+res.S+")", v.S)))
 			c.assumeTypeFacts(st, res)
